@@ -165,7 +165,9 @@ public:
         niter_ = 0;
         for (niter_ = 0; niter_ < maxit; niter_++)
         {
-            bool do_restart = (m_search_space.size() > m_max_search_space_size);
+            // A restart collapses the search space onto the Ritz vectors, so there must be some:
+            // an initial space wider than the maximal size is used as it is in the first iteration
+            bool do_restart = (m_search_space.size() > m_max_search_space_size) && (m_ritz_pairs.size() > 0);
 
             if (do_restart)
             {
